@@ -39,9 +39,8 @@ ConectDirected(lines, serials) ==
                     k \in {q \in 1..4 : Part(q).ok}}
          : n \in DOMAIN lines}
 
-JudgeFile(ev) ==
+JudgeFile(ev) == Bind(Expect(ev.S), LAMBDA e :
   LET S == ev.S
-      e == Expect(S)
       okOc == ev.oc = e.oc \/ (e.lenient /\ ev.oc = "Rejected")
       both == ev.oc = "ok" /\ e.oc = "ok"
       ea == AtomLinesOf(e.lines)   oa == AtomLinesOf(ev.lines)
@@ -52,13 +51,16 @@ JudgeFile(ev) ==
                     ELSE 0
       expLine == IF firstBad > 0 /\ firstBad <= Len(ea) THEN ea[firstBad] ELSE <<>>
       okKinds == both => Kinds(ev.lines) = Kinds(e.lines)                 \* diagnostic only
-      rd == both /\ okAtoms                     \* the reader saw the expected records
+      \* the reader saw the expected records (with bonds only inside Dom_BondIds / Dom_Ids: the
+      \* reader refuses serial numbers that do not address the atoms)
+      rd == both /\ okAtoms /\ (S.bonds = <<>> \/ e.dom)
       g == ev.back   x == e.back
       okBack == rd =>
                   /\ g.ok /\ g.nmodels = x.nmodels /\ Len(g.atoms) = Len(x.atoms)
                   /\ \A i \in DOMAIN x.atoms : i \in DOMAIN g.atoms /\ AtomEq(g.atoms[i], x.atoms[i])
                   /\ g.coords = x.coords
-                  /\ Len(g.box) = Len(x.box) /\ (x.box # <<>> => g.box[1].len = x.box[1].len /\ g.box[1].ang = x.box[1].ang)
+                  /\ (e.domBox => (Len(g.box) = Len(x.box)
+                                    /\ (x.box # <<>> => g.box[1].len = x.box[1].len /\ g.box[1].ang = x.box[1].ang)))
       gotPairs == {<<b[1], b[2]>> : b \in ToSet(g.bonds)}
       okBonds == (rd /\ S.bonds # <<>> /\ e.dom) => (x.bonds.carry \subseteq gotPairs /\ gotPairs \subseteq x.bonds.upper)
       exactBonds == (rd /\ S.bonds # <<>> /\ e.dom) => ToSet(g.bonds) = x.bonds.exact     \* diagnostic only
@@ -77,7 +79,7 @@ JudgeFile(ev) ==
       diag == <<okKinds, exactBonds, okSelOut>>
   IN /\ (flags = <<TRUE, TRUE, TRUE, TRUE, TRUE, TRUE>>
            \/ PrintT(<<"MISMATCH", tid, l + 1, flags, e.kb, e.oc, e.lenient, firstBad, expLine>>))
-     /\ (diag = <<TRUE, TRUE, TRUE>> \/ PrintT(<<"DIAG", tid, l + 1, diag>>))
+     /\ (diag = <<TRUE, TRUE, TRUE>> \/ PrintT(<<"DIAG", tid, l + 1, diag>>)))
 
 JudgeH36(ev) ==
   LET e == Enc(ev.n, ev.w)
